@@ -445,8 +445,46 @@ def _check(run):
             else:
                 run.violation("b2:pipe:%s:%s" % (h.get("kind"), why), "%s: rejected record %s (%s)" % (desc, ev[:300], why), path)
 
+    # ------------------------------------------------------------------ LineText: what the lines of a source are
+    def linetext():
+        alpha, ml = ("{97, 13, 10}", 6) if quick else ("{97, 13, 10, 0}", 6)
+        base = "INIT Init\nNEXT Next\nCONSTANTS MaxLen = %d\n Alphabet = %s\n Policy = \"%s\"\nINVARIANTS %s\nCHECK_DEADLOCK FALSE\n"
+        jobs = [lambda: ("gen", tlc(run, "LineText_MC", base % (ml, alpha, "one", "Laws Dump"), workers=2, timeout=1800, label="LineText laws + sources")),
+                lambda: ("wide", tlc(run, "LineText_MC", base % (4, "{97, 32, 13, 10, 0, 255}", "one", "Laws Dump"), workers=2, timeout=1800,
+                                     label="LineText laws + sources (6-letter alphabet)")),
+                lambda: ("neg", tlc(run, "LineText_MC", base % (4, "{97, 13, 10}", "run", "Laws"), workers=1, timeout=600,
+                                    label="LineText control: a run of CRs is stripped"))]
+        vecs = []
+        for tag, r in parallel(jobs, 3):
+            if tag == "neg":
+                if "Laws" not in r.violated:
+                    raise Inconclusive("negative control not refuted (run of CRs stripped): %s" % r.out[-1500:])
+                run.cov["b3_negative_controls"] = run.cov.get("b3_negative_controls", 0) + 1
+            else:
+                require_clean(run, r, "LineText")
+                vecs += vfj_lines(r.out)
+        if len(vecs) < 2000:
+            raise Inconclusive("LineText_MC produced only %d sources" % len(vecs))
+        vp = os.path.join(sc, "c02-linetext.ndjson")
+        with open(vp, "w") as f:
+            for v in vecs:
+                f.write(json.dumps(v, separators=(",", ":")) + "\n")
+        out = os.path.join(sc, "c02-linetext.json")
+        p = run.drv(["linetext", "-in", vp, "-out", out, "-rare", rare, "-clievery", 25 if quick else 5], check=False, timeout=3000)
+        if p.returncode != 0:
+            crash_verdict(run, p, "B1 line-text sources")
+            return
+        res = json.load(open(out))
+        run.cov["b1_linetext_sources"] = res["vectors"]
+        run.cov["b1_linetext_runs"] = res["runs"] + res["cli"]
+        run.cov["traces_validated_against_impl"] += res["runs"] + res["cli"]
+        run.cov["evaluations"] += res["runs"] + res["cli"]
+        for m in res["mismatches"] or []:
+            run.violation("b1:linetext:%s" % m["why"].split(":")[0],
+                          "source %s through %s: %s (LineText.tla)" % (b2s(m["s"]), m["how"], m["why"]), m)
+
     parallel([b1_gen, b2_run], 2)
-    parallel([b3_pipe, b3_life, b3_laws, b1_replay, b2_validate], 5)
+    parallel([b3_pipe, b3_life, b3_laws, b1_replay, b2_validate, linetext], 6)
     run.cov["rule"] = ("B3: all interleavings / all inputs within the listed constants, plus negative controls that must be refuted; "
                        "B1: one evaluation per TLC vector on the real extractor / colouriser, non-trivial = vectors with capture groups "
                        "(>= 2 coloured spans); B2: one trace per pipeline run / CLI run / WrapIndices call, non-trivial = runs with "
